@@ -429,15 +429,11 @@ def handle (toks : List String) : String :=
       match dbp, parseHT ht, reps.mapM parseReplica with
       | some dbp, some ht, some reps =>
         let Hf : List Nat → Nat × Nat := fun c => match ht.find? (fun e => e.1 == c) with | some e => e.2 | none => (0, 0)
-        let groups := Pff.Merge.align (Pff.Merge.remaining (reps.map Pff.Merge.walk) + 1) (reps.map Pff.Merge.walk)
-        let rows := groups.map (fun pg =>
-          let path := "/".intercalate pg.1
-          let recorded := (dbp.find? (fun e => e.1 == path)).map (·.2)
-          let r := Pff.DupDb.processGroupDb bs Hf recorded pg.2
+        let res := Pff.DupDb.dupWithDb bs Hf (dbp.map (fun e => (e.1, e.2.1, e.2.2))) reps
+        let rows := res.rows.map (fun r =>
           let mk := match r.mark with | .ok => "OK" | .ko => "KO" | .unknown => "-"
-          (s!"{strHex path}:{toHex r.out}:{showNums (pg.2.map (·.1))}:{mk}:{r.errcode}", r.errcode))
-        let exit := if rows.any (fun x => x.2 ≠ 0) then 1 else 0
-        s!"{exit} {" ".intercalate (rows.map (·.1))}"
+          s!"{strHex ("/".intercalate r.path)}:{toHex r.out}:{showNums r.used}:{mk}:{r.errcode}")
+        s!"{res.exit} {" ".intercalate rows}"
       | _, _, _ => "bad-op"
     | _, _ => "bad-op"
   | "walk" :: rest =>
